@@ -76,12 +76,18 @@ void check_new_block(Ctx &c, uint8_t *p, size_t size, const char *what) {
 
 static const size_t EDGE = 4096; // blocks of 64 MiB and more are only patterned at their first and last 4 KiB
 static inline bool is_vast(size_t n) { return n >= ((size_t)64 << 20); }
+// One block in fifty carries a word from the dictionary of the library's own 64-bit immediates, repeated over its whole length: the
+// contents of a live block are the caller's and may be any value, including one the allocator uses as a marker internally.
+static const uint64_t DICT = (uint64_t)1 << 62;
+static inline uint8_t dict_byte(uint64_t tag, size_t i) { uint64_t w = hdict::at((size_t)(tag & 0xFFFFFF)); return (uint8_t)(w >> (8 * (i & 7))); }
 void fill_block(uint8_t *p, size_t n, uint64_t tag) {
+    if (tag & DICT) { for (size_t i = 0; i < n; i++) p[i] = dict_byte(tag, i); return; }
     if (!is_vast(n)) { pat::fill(p, n, tag); return; }
     pat::fill(p, EDGE, tag);
     pat::fill(p + n - EDGE, EDGE, tag ^ 0x5555);
 }
 long first_bad_block(const uint8_t *p, size_t n, uint64_t tag) {
+    if (tag & DICT) { for (size_t i = 0; i < n; i++) if (p[i] != dict_byte(tag, i)) return (long)i; return -1; }
     if (!is_vast(n)) return pat::first_bad(p, n, tag);
     long b = pat::first_bad(p, EDGE, tag);
     if (b >= 0) return b;
@@ -99,6 +105,7 @@ void verify(Ctx &c, const Block &b, const char *when) {
 Block place(Ctx &c, uint8_t *p, size_t size) {
     Block b;
     b.p = p; b.size = size; b.tag = c.next_tag++;
+    if (size >= 8 && size <= 4096 && hdict::size() && sim::mix64(b.tag, c.plan->seed) % 50 == 0) { b.tag |= DICT; sim::probe("block_filled_with_a_word_from_the_librarys_own_immediates"); }
     if (size > 512 && in_sba_page(p))
         sim::violation("c03:size-class", "a request of %zu bytes (beyond the largest size class) was served from a small-block page: it is not writable for its whole size", size);
     b.cls = (size <= 512 && in_sba_page(p)) ? class_of(size) : 0;
@@ -196,7 +203,8 @@ void run_worker(Ctx &c, int idx) {
                     // grown in place: the extension must not run into a neighbour
                     check_new_block(c, (uint8_t *)p, n, "realloc(in place)");
                 }
-                long bad = is_vast(b.size) ? pat::first_bad(p, keep < EDGE ? keep : EDGE, b.tag) : pat::first_bad(p, keep, b.tag);
+                long bad = (b.tag & DICT) ? first_bad_block((const uint8_t *)p, keep, b.tag)
+                                          : is_vast(b.size) ? pat::first_bad(p, keep < EDGE ? keep : EDGE, b.tag) : pat::first_bad(p, keep, b.tag);
                 if (bad >= 0) sim::violation("c03:realloc-lost", "realloc(%zu -> %zu): old contents not preserved at offset %ld", b.size, n, bad);
                 Block nb;
                 if (p == b.p) { nb = b; nb.size = n; nb.tag = c.next_tag++; fill_block(nb.p, n, nb.tag); if (nb.cls && n > nb.cls) sim::violation("c03:realloc", "block grown in place beyond its size class"); c.live[(uintptr_t)nb.p] = nb; }
